@@ -296,8 +296,8 @@ def check_sink(repo: Repo, res: Result, it: M.Interp, s: M.Sink) -> None:
                 origin = p.base.split(":", 1)[1]
                 if set(p.items) & {"FLAG", "EXT"}:
                     res.undecide("C10.R1", sink_key + f" [{p.base}]", f"the {what} contains the result of `{origin}`, which depends on the external options in a way the model cannot follow", sink_where)
-                elif what == "import list" and "CONVERTED" not in p.items:
-                    res.undecide("C10.R1", sink_key + f" [{p.base}]", f"the import list contains elements of unknown origin (`{origin}`): not the result of ImportConverter.convert", sink_where)
+                elif what == "import list" and scanned(p.base):
+                    res.undecide("C10.R1", sink_key + f" [{p.base}]", f"the import list contains scanned module names (`{origin}`)", sink_where)
                 elif what == "module list" and not scanned(p.base):
                     res.undecide("C10.R3", sink_key + f" [{p.base}]", f"the module list contains names of unknown origin (`{origin}`): neither scanned modules nor names derived from an import in a way the model follows", sink_where)
             elif p.kind == "lit" and any(not isinstance(i, M.Const) for i in p.items):
@@ -430,6 +430,12 @@ def _split_components(f: FuncInfo, e: ast.expr, depth: int = 0) -> "str | None":
         assigns = [n for n in own_nodes(f.node) if isinstance(n, (ast.Assign, ast.AnnAssign)) and n.value is not None and any(isinstance(t, ast.Name) and t.id == e.id for t in (n.targets if isinstance(n, ast.Assign) else [n.target]))]
         if len(assigns) == 1:
             return _split_components(f, assigns[0].value, depth + 1)
+        # a, b = x.split("."), y.split(".")
+        for n in own_nodes(f.node):
+            if isinstance(n, ast.Assign) and len(n.targets) == 1 and isinstance(n.targets[0], ast.Tuple) and isinstance(n.value, ast.Tuple) and len(n.value.elts) == len(n.targets[0].elts):
+                for t, v in zip(n.targets[0].elts, n.value.elts):
+                    if isinstance(t, ast.Name) and t.id == e.id:
+                        return _split_components(f, v, depth + 1)
     return None
 
 
@@ -474,6 +480,42 @@ def add_sites(repo: Repo, res: Result, rule: str, sites) -> int:
     return n
 
 
+ZIP_FIXTURE = '''
+def unsafe_zip(module: str, prefix: str) -> bool:
+    wanted = prefix.rstrip(".").split(".")
+    return all(a == b for a, b in zip(module.split("."), wanted))
+
+
+def safe_zip_with_length(module: str, prefix: str) -> bool:
+    have, wanted = module.split("."), prefix.split(".")
+    return len(have) >= len(wanted) and all(a == b for a, b in zip(have, wanted))
+
+
+def safe_slice(module: str, prefix: str) -> bool:
+    wanted = prefix.split(".")
+    return module.split(".")[: len(wanted)] == wanted
+'''
+
+
+def zip_fixture_selfcheck() -> str:
+    """The expected number of truncated comparisons on the real tree is zero: a positive fixture shows that the lint still bites."""
+    import shutil
+    import tempfile
+    from pathlib import Path
+
+    tmp = Path(tempfile.mkdtemp(prefix="pta-c10-fixture-"))
+    try:
+        (tmp / "src" / "pytestarch").mkdir(parents=True)
+        (tmp / "src" / "pytestarch" / "fixture_c10_zip.py").write_text(ZIP_FIXTURE)
+        fx = Repo(tmp)
+        got = {f.name: guarded for f, _c, guarded, _t in zip_truncations(fx, fx.all_functions())}
+        if got != {"unsafe_zip": False, "safe_zip_with_length": True}:
+            raise AnalysisError(f"C10.R2 fixture: zip comparisons not classified as expected: {got}")
+        return "1 truncated and 1 length-guarded zip comparison of component lists classified as expected (embedded fixture)"
+    finally:
+        shutil.rmtree(tmp, ignore_errors=True)
+
+
 def run_r2(repo: Repo, res: Result, it: M.Interp, internal: set[str], how: str) -> None:
     stop = {f.fq for f in repo.all_functions() if f.cls is not None and any(c.name == M.SINK_CLASS for c in repo.mro(f.cls))}
     reach = reachable_funcs(repo, [it.entry], byname=True, stop=stop)
@@ -501,6 +543,7 @@ def run_r2(repo: Repo, res: Result, it: M.Interp, internal: set[str], how: str) 
             where(f, c),
             kind="structural",
         )
+    res.add("C10.R2", "fixture::zip comparison of component lists", True, zip_fixture_selfcheck(), nontrivial=False)
     for f in [g for g in fns if g.fq in internal]:
         res.add("C10.R2", f"{f.relpath}::{f.qualname}::complete prefixes", all(g for _f, _c, g, _t in zs), f"the internal test ({how}) contains no comparison of component lists truncated by zip ({len(zs)} zip comparison(s) of component lists inspected)", where(f, f.node), nontrivial=bool(zs), kind="structural")
 
@@ -529,6 +572,13 @@ def run(repo: Repo) -> Result:
     res.analysed["functions_interpreted"] = len(it.visited)
     for n in it.notes:
         res.observe("C10 model: " + n)
+    if not it.sinks:
+        # by role: an object of a class outside the scan package built from a collection that stems from the parser and another one
+        for ci, colls, g, fi, node in it.other_sinks:
+            mods = [c for c in colls if isinstance(c, M.Coll) and any(p.base.startswith("scanned:") for p in M.bases_of(c))]
+            imps = [c for c in colls if isinstance(c, M.Coll) and c not in mods]
+            if len(mods) == 1 and len(imps) == 1:
+                it.sinks.append(M.Sink(mods[0], imps[0], g, fi, node))
     if not it.sinks:
         res.undecide("C10.R1", f"{it.entry.relpath}::{it.entry.qualname}::graph construction", f"no construction of {M.SINK_CLASS}(modules, imports, ..) was met while interpreting the scan entry point", where(it.entry, it.entry.node))
     for s in it.sinks:
